@@ -381,41 +381,130 @@ pub fn shrink_text(text: &str, still_fails: &dyn Fn(&str) -> bool) -> String {
 // ---------------------------------------------------------------------------------------------
 // in-process front end (lex -> parse -> validate -> index -> lower), every diagnostic rendered
 
-/// Returns, for every diagnostic the single-file front end produces, the byte offset where its
-/// range starts and the rendered lines (None if rendering panicked).
-pub fn frontend_diagnostics(text: &str) -> Vec<(u32, Option<Vec<String>>)> {
+/// Near-valid programs whose only problems are type errors, most of them of kinds that carry a
+/// help range (immutable binding / parameter / reference), shifted around by comment lines,
+/// tabs and multi-byte characters so that line/column arithmetic is exercised.
+pub fn type_error_inputs() -> Vec<String> {
+    let bodies = [
+        "x :: 5;\n    x = 6;",
+        "x : i32 : 5;\n\tx += 1;",
+        "s :: \"é\";\n    y :: 1;\n    y = 2;",
+        "a := 1;\n    p :: ^a;\n    p^ = 4;",
+        "a :: 1;\n    p :: ^mut a;",
+        "arr :: i32.[1, 2];\n    arr[0] = 3;",
+        "b : bool = 1;",
+        "n : i32 = \"text\";",
+        "u : u8 = 300;",
+        "q := undefined_name;",
+        "z : i32 = 1;\n    z = true;",
+    ];
+    let params = ["(v: i32) { v = 1; }", "(s: P) { s.a = 2; }", "(p: ^i32) { p^ = 3; }"];
+    let prefixes = ["", "// é comment\n", "\n\n", "// a\n// 😀😀\n\n", "\t\n // x\n"];
+    let indents = ["    ", "\t", "  \t ", "        "];
+    let mut out = Vec::new();
+    for (bi, b) in bodies.iter().enumerate() {
+        for (pi, pre) in prefixes.iter().enumerate() {
+            let ind = indents[(bi + pi) % indents.len()];
+            out.push(format!("{pre}main :: () {{\n{ind}{}\n}}\n", b.replace("\n    ", &format!("\n{ind}"))));
+        }
+    }
+    for (fi, f) in params.iter().enumerate() {
+        for pre in prefixes.iter() {
+            out.push(format!("{pre}P :: struct {{ a: i32 }};\n// é\nf{fi} :: {f}\nmain :: () {{}}\n"));
+        }
+    }
+    out
+}
+
+pub struct RenderedDiag {
+    /// byte offset where the diagnostic's range starts
+    pub start: u32,
+    /// byte offset where the attached help's range starts, if there is one
+    pub help_start: Option<u32>,
+    /// rendered lines (None if rendering panicked)
+    pub lines: Option<Vec<String>>,
+    pub is_error: bool,
+    pub phase: &'static str,
+}
+
+pub struct FrontendResult {
+    pub diags: Vec<RenderedDiag>,
+    /// which phase the run stopped in, if it did not complete ("lower-panic", "infer-panic:<key>", "comptime")
+    pub stopped: Option<String>,
+}
+
+pub const COMPTIME_SENTINEL: &str = "capyv: comptime evaluation requested";
+
+/// Runs lex -> parse -> validate -> index -> lower -> infer on one file in a fresh thread (the hir
+/// crates keep thread-local state) and renders every diagnostic. Comptime evaluation is not
+/// performed: the first request ends the run ("comptime").
+pub fn frontend(text: &str, with_inference: bool) -> FrontendResult {
+    let text = text.to_string();
+    let h = std::thread::Builder::new().stack_size(16 << 20).spawn(move || frontend_here(&text, with_inference)).unwrap();
+    match h.join() {
+        Ok(r) => r,
+        Err(_) => FrontendResult { diags: Vec::new(), stopped: Some("thread-panic".into()) },
+    }
+}
+
+fn frontend_here(text: &str, with_inference: bool) -> FrontendResult {
     use ast::AstNode;
     let mut interner = interner::Interner::default();
     let mut uid_gen = uid_gen::UIDGenerator::default();
+    let mut stopped = None;
     let tokens = lexer::lex(text);
     let parse = parser::parse_source_file(&tokens, text);
     let tree = parse.syntax_tree();
     let root = ast::Root::cast(tree.root(), tree).unwrap();
-    let mut diags: Vec<diagnostics::Diagnostic> = Vec::new();
-    diags.extend(parse.errors().iter().cloned().map(diagnostics::Diagnostic::from_syntax));
-    diags.extend(
-        ast::validation::validate(root, tree)
-            .iter()
-            .cloned()
-            .map(diagnostics::Diagnostic::from_validation),
-    );
+    let mut diags: Vec<(diagnostics::Diagnostic, &'static str)> = Vec::new();
+    diags.extend(parse.errors().iter().cloned().map(|d| (diagnostics::Diagnostic::from_syntax(d), "syntax")));
+    diags.extend(ast::validation::validate(root, tree).iter().cloned().map(|d| (diagnostics::Diagnostic::from_validation(d), "validation")));
     let (index, indexing) = hir::index(root, tree, &mut interner);
-    diags.extend(indexing.iter().cloned().map(diagnostics::Diagnostic::from_indexing));
+    diags.extend(indexing.iter().cloned().map(|d| (diagnostics::Diagnostic::from_indexing(d), "indexing")));
     let mod_dir = Path::new("/repo");
     let file = Path::new("/verif/work/inproc/main.capy");
-    let lowered = catch(|| {
-        hir::lower(root, tree, file, &index, &mut uid_gen, &mut interner, mod_dir, false)
-    });
-    if let Ok((_bodies, lowering)) = lowered {
-        diags.extend(lowering.iter().cloned().map(diagnostics::Diagnostic::from_lowering));
+    let module = hir::common::FileName(interner.intern(&file.to_string_lossy()));
+    let lowered = catch(|| hir::lower(root, tree, file, &index, &mut uid_gen, &mut interner, mod_dir, false));
+    match lowered {
+        Err(k) => stopped = Some(format!("lower-panic:{k}")),
+        Ok((bodies, lowering)) => {
+            diags.extend(lowering.iter().cloned().map(|d| (diagnostics::Diagnostic::from_lowering(d), "lowering")));
+            if with_inference && bodies.imports().is_empty() {
+                let mut world_index = hir::WorldIndex::default();
+                let mut world_bodies = hir::WorldBodies::default();
+                world_index.add_file(module, index.clone());
+                world_bodies.add_file(module, bodies);
+                let entry = hir::common::Fqn { file: module, name: hir::common::Name(interner.intern("main")) };
+                let has_main = world_bodies[module].global_exists(entry.name);
+                let mut generic_values = la_arena::Arena::new();
+                let res = catch(|| {
+                    hir_ty::InferenceCtx::new(&world_index, &world_bodies, &interner, &mut generic_values, |_c, _t| -> hir::common::ComptimeResult {
+                        panic!("{}", COMPTIME_SENTINEL)
+                    })
+                    .finish(if has_main { Some(entry) } else { None }, true)
+                });
+                match res {
+                    Err(k) if k.contains("comptime evaluation requested") => stopped = Some("comptime".into()),
+                    Err(k) => stopped = Some(format!("infer-panic:{k}")),
+                    Ok(r) => {
+                        diags.extend(r.diagnostics.into_iter().map(|d| (diagnostics::Diagnostic::from_ty(d), "types")));
+                    }
+                }
+            } else if with_inference {
+                stopped = Some("imports".into());
+            }
+        }
     }
     let line_index = line_index::LineIndex::new(text);
-    diags
+    let out = diags
         .iter()
-        .map(|d| {
-            let start = u32::from(d.range().start());
-            let rendered = catch(|| d.display("main.capy", text, mod_dir, &interner, &line_index, false)).ok();
-            (start, rendered)
+        .map(|(d, phase)| RenderedDiag {
+            start: u32::from(d.range().start()),
+            help_start: d.help().map(|h| u32::from(h.range().start())),
+            lines: catch(|| d.display("main.capy", text, mod_dir, &interner, &line_index, false)).ok(),
+            is_error: d.severity() == diagnostics::Severity::Error,
+            phase,
         })
-        .collect()
+        .collect();
+    FrontendResult { diags: out, stopped }
 }
